@@ -144,7 +144,7 @@ NumF == {B8(191,224,0,0,0,0,0,0), B8(63,224,0,0,0,0,0,0), B8(191,248,0,0,0,0,0,0
          B8(127,240,0,0,0,0,0,1)}
 NumSet == {N("u", b) : b \in NumU} \cup {N("i", b) : b \in NumI} \cup {N("f", b) : b \in NumF}
 \* payloads for the decoder: every tag (and a few non-tags) with every length 0..10
-NumPayloads == {<<>>} \cup {<<t>> \o Rep(f, n) : t \in {0, 16, 32, 48, 64, 80, 96, 112, 1, 65, 255}, f \in {0, 128, 255}, n \in 0..10}
+NumPayloads == {<<>>} \cup {<<t>> \o Rep(f, n) : t \in {0, 16, 32, 48, 64, 80, 96, 112, 1, 65, 255}, f \in {0, 128, 255}, n \in (0..18) \cup {31, 32, 33, 64}}
 ----------------------------------------------------------------------------
 (* argument domains derived from the document *)
 Flip(b) == IF b >= 65 /\ b <= 90 THEN b + 32 ELSE IF b >= 97 /\ b <= 122 THEN b - 32 ELSE b
@@ -153,7 +153,7 @@ PresentKeys(d) == IF d.k = "obj" THEN {d.o[i][1] : i \in 1..Len(d.o)} ELSE {}
 StringElems(d) == IF d.k = "arr" THEN {d.a[i].s : i \in {j \in 1..Len(d.a) : d.a[j].k = "str"}} ELSE {}
 NameArgs(d) ==
   LET base == PresentKeys(d) \cup StringElems(d)
-  IN {n \in (base \cup {FlipCase(s) : s \in base} \cup {Sub(s, 1, Len(s) - 1) : s \in {x \in base : Len(x) > 0}}
+  IN {n \in (base \cup {<<195, 137>>, <<195, 169>>} \cup {FlipCase(s) : s \in base} \cup {Sub(s, 1, Len(s) - 1) : s \in {x \in base : Len(x) > 0}}
             \cup {s \o <<98>> : s \in base} \cup {kEmpty, ka}) : WellFormed(n)}
 Width1(d) == IF d.k = "arr" THEN Len(d.a) ELSE IF d.k = "obj" THEN Len(d.o) ELSE 1
 IndexArgs(d) == (0 - (Width1(d) + 2))..(Width1(d) + 2)
